@@ -260,7 +260,11 @@ class G:
 # ------------------------------------------------------------------- deterministic small-structure sweep
 GRID_BLOCKS = {"para": ["a"], "para2": ["a", "b"], "atx": ["# h"], "hr": ["***"], "html7": ["<d>"], "html6": ["<div>"], "html2": ["<!-- c -->"], "icode": ["    code"],
                "fence": ["```", "code", "```"], "fence_info": ["~~~ x", "code", "~~~"], "quote": ["> q"], "bullet": ["- x"], "bullet2": ["- x", "- y"], "ol1": ["1. x"], "ol2": ["2. x"],
-               "empty_item": ["-"], "table": ["|a|", "|-|"], "refdef": ["[r]: /u"]}
+               "empty_item": ["-"], "table": ["|a|", "|-|"], "refdef": ["[r]: /u"],
+               # added after the second round of seeded changes: task items, lists nested in (task) items, code blocks
+               # with an interior line of spaces only
+               "task": ["- [ ] t"], "task_nested": ["- [ ] t", "  - n", "  - m"], "bullet_nested": ["- x", "  - y"],
+               "fence_ws": ["```", "foo", "  ", "bar", "```"], "icode_ws": ["    a", "      ", "    b"]}
 GRID_CONTEXTS = [("", ""), ("> ", "> "), ("- ", "  "), ("1. ", "   "), ("- > ", "  > ")]
 GRID_WORDS = ["a", "bb", "1.", "1)", "12.", "-", "+", "=", "#", ">", "*", "~~~", "<b>", "`c d`", "[l](u)", "x1", "9"]
 
@@ -279,6 +283,9 @@ def grid_cases():
                     lines = a + sep + b
                     doc = "\n".join(((first if i == 0 else rest) + l).rstrip(" ") if l else rest.rstrip(" ") for i, l in enumerate(lines)) + "\n"
                     out.append((doc, gfm))
+                    if first == "1. " and sep:
+                        # padded ordered markers: the continuation indent is the padded width
+                        out.append((doc, {**gfm, "ol_width": 6}))
     for a in GRID_BLOCKS.values():
         for b in GRID_BLOCKS.values():
             out.append(("\n".join(a + [""] + b) + "\n", plain))
@@ -1548,6 +1555,13 @@ def replay_witnesses(c, prop, fail, ask):
 def run(c, prop, tier):
     """the end-to-end search shared by C07 and C17; prop selects the failure test and the known classes"""
     import time
+    # the round trip is format_commonmark after parse_document: the model of the formatter (Model/Cm.v) and the two
+    # parser models are tied to the compiled code here, so that a change of either side that the search does not
+    # meet is still reported (as a broken tie)
+    from checks import cm_tie, layerc
+    cm_tie.tie_cm(c, 300 if tier == "quick" else 3000, 100 if tier == "quick" else 1000)
+    layerc.blocks(c, tier, 0.12 if tier == "quick" else 0.05, proofs=False)
+    layerc.inlines(c, tier, 0.12 if tier == "quick" else 0.05, proofs=False)
     fail = fail07 if prop == "C07" else (lambda r, ask, ws=True: fail17(r))
     known = {e["class"]: e for e in c.known}
     repaired = {e["class"]: e for e in recorded_entries(prop, "fixed")}
